@@ -21,7 +21,16 @@ func main() {
 	seed := flag.Int64("seed", 0, "recorded only")
 	budget := flag.Duration("budget", 0, "internal deadline (0: none)")
 	replay := flag.String("replay", "", "replay file")
+	child := flag.String("child", "", "child helper mode")
 	flag.Parse()
+	if *child != "" {
+		f := chk.Children[*child]
+		if f == nil {
+			fmt.Fprintln(os.Stderr, "unknown child", *child)
+			os.Exit(2)
+		}
+		os.Exit(f(flag.Args()))
+	}
 	if *replay != "" {
 		f := chk.Replayers[*id]
 		if f == nil {
